@@ -755,9 +755,9 @@ def _visible(n):
 def plan(tier, seed):
     jobs = []
     if tier == "quick":
-        ns, ne, per_s, per_e = 24, 16, 170, 22
+        ns, ne, per_s, per_e = 16, 8, 160, 30
     else:
-        ns, ne, per_s, per_e = 96, 64, 2600, 330
+        ns, ne, per_s, per_e = 64, 32, 2500, 400
     for i in range(ns):
         jobs.append({"kind": "struct", "seed": seed * 100003 + i, "n": per_s})
     for i in range(ne):
@@ -987,12 +987,13 @@ def finish(agg, tier):
     c = agg.counters
     inc = []
     scale = 1 if tier == "quick" else 10
-    need = {"struct_modules": 2000, "exec_programs": 150, "runs_dce": 2000, "runs_canonicalize": 400, "runs_bare": 400,
-            "runs_bare_rev": 300, "runs_legacy": 400, "exec_runs_compared": 800,
-            "hook_would_be_trivially_dead_calls": 50000, "hook_is_trivially_dead_true": 2000,
-            "hook_region_dce_calls": 2000, "hook_propagate_op_liveness_calls": 50000, "hook_delete_dead_calls": 2000,
-            "struct_modules_with_unreachable_block": 300, "struct_modules_where_liveness_beats_trivial": 300,
-            "nontrivial_cases": 1000}
+    need = {"struct_modules": 1500, "exec_programs": 120, "runs_dce": 1600, "runs_canonicalize": 400, "runs_bare": 400,
+            "runs_bare_rev": 250, "runs_legacy": 400, "exec_runs_compared": 800,
+            "hook_would_be_trivially_dead_calls": 100000, "hook_is_trivially_dead_true": 10000,
+            "hook_region_dce_calls": 1500, "hook_propagate_op_liveness_calls": 100000, "hook_delete_dead_calls": 8000,
+            "struct_modules_with_unreachable_block": 600, "struct_modules_where_liveness_beats_trivial": 500,
+            "struct_modules_needing_more_than_one_round": 100, "exec_programs_with_unreachable_block": 30,
+            "nontrivial_cases": 800}
     for k, n in need.items():
         if c.get(k, 0) < n * scale:
             inc.append(f"{k}={c.get(k, 0)} below the reach threshold {n * scale}")
